@@ -371,6 +371,32 @@ def r18_9(ctx, rep):
                "expanded variables' names)" % norm(c.args[0])[:40])
 
 
+@SPEC.rule(
+    "R18.11",
+    "an array is replaced by its elements, nothing else: every value _expand_vectors appends to the list that is substituted for the old array "
+    "symbols is built from the variable's new scalar symbols — never from the variable's numbers (`a constant's literal value, to save an "
+    "indexing node`): the residual function must keep depending on c[1], c[2] exactly as it depended on c",
+)
+def r18_11(ctx, rep):
+    R = "R18.11"
+    fn = ctx.func(MODEL, "Model._expand_vectors", R)
+    subs = substitutions(fn.body)
+    eq = [s_ for s_ in subs if s_["store"] == "equations"]
+    if not eq:
+        raise MechanismMissing(R, "substitution of self.equations not found in _expand_vectors")
+    vals = eq[0]["values"]
+    elem_lists = {c.func.value.id for lp in ast.walk(fn) if isinstance(lp, ast.For) and "np.ndindex(" in norm(lp.iter) for c in calls(lp)
+                  if isinstance(c.func, ast.Attribute) and c.func.attr == "append" and isinstance(c.func.value, ast.Name)}
+    apps = [c for c in calls(fn) if isinstance(c.func, ast.Attribute) and c.func.attr in ("append", "extend") and is_name(c.func.value, vals) and c.args]
+    if not apps or not elem_lists:
+        raise MechanismMissing(R, "appends to the substitution values / the list of a variable's scalar elements were not found")
+    for k, c in enumerate(apps):
+        uses = {x.id for x in ast.walk(c.args[0]) if isinstance(x, ast.Name)} & elem_lists
+        rep.ob(R, SITE, "substitution value #%d is made of the new scalar symbols" % (k + 1), bool(uses),
+               "`%s` does not read the list of new scalar variables: the old array symbol is replaced by something that no longer is the model's "
+               "variable" % norm(c)[:80])
+
+
 # -- seeded variants ---------------------------------------------------------
 from ._mut import replace_in_func  # noqa: E402
 
